@@ -214,3 +214,236 @@ def check_C02(work, tier, seed):
 
 
 CHECKS = {"C01": check_C01, "C02": check_C02}
+
+
+# ------------------------------------------------------------------ CTR (C05, C06)
+
+BATCH = {("s128", 0): 1, ("s128", 1): 4, ("s128", 2): 8, ("s64", 0): 1, ("s64", 1): 8, ("s64", 2): 8,
+         ("mantis", 0): 1, ("mantis", 1): 8, ("mantis", 2): 8}
+CAPS = {"s128": (2, 1, 0), "s64": (1, 0), "mantis": (1, 0)}
+
+
+def cuts(rng, total, bs, irregular=True):
+    """Cut `total` bytes into request sizes: a mix of sizes relative to block
+    and batch boundaries (for B in 1,4,8) and random ones, zero-length included."""
+    special = [0, 1, bs - 1, bs, bs + 1, 4 * bs - 1, 4 * bs, 4 * bs + 1, 8 * bs - 1, 8 * bs, 8 * bs + 1,
+               2 * bs + 3, 12 * bs + 5]
+    res, left = [], total
+    while left > 0:
+        if rng.random() < 0.6:
+            n = rng.choice(special)
+        else:
+            n = rng.randrange(0, 3 * bs)
+        n = min(n, left)
+        res.append(n)
+        left -= n
+    if rng.random() < 0.5:
+        res.append(0)
+    return res
+
+
+def ctr_key_setup(sc, kind, o, keying, z=None):
+    bs = BS[kind]
+    if kind == "mantis":
+        sc.ctr_set_key(kind, o, sc.rb(16), rounds=5 + sc.rng.randrange(4))
+        if keying == "tweaked":
+            sc.ctr_set_tweak(kind, o, sc.rb(8))
+    elif keying == "plain":
+        z = z or sc.rng.randrange(1, 4)
+        sc.ctr_set_key(kind, o, sc.rb(z * bs))
+    else:
+        z = z or sc.rng.randrange(1, 3)
+        sc.ctr_set_tweaked_key(kind, o, sc.rb(z * bs))
+        if sc.rng.random() < 0.8:
+            tl = sc.rng.randrange(1, bs + 1)
+            sc.ctr_set_tweak(kind, o, sc.rb(tl))
+
+
+def stream(sc, kind, o, total, inplace_prob=0.3):
+    for n in cuts(sc.rng, total, BS[kind]):
+        sc.ctr_encrypt(kind, o, sc.rb(n), ip=1 if (n and sc.rng.random() < inplace_prob) else None)
+
+
+def gen_ctr(seed, tier, cap_for, c06=False):
+    """CTR scenarios.  cap_for(kind) gives the back-end cap to request."""
+    sc = Sc(seed)
+    thorough = tier == "thorough"
+    for kind in ("s128", "s64", "mantis"):
+        bs = BS[kind]
+        cap = cap_for(kind)
+        keyings = ("plain", "tweaked")
+        for keying in keyings:
+            # 1. default counter after init (no set_counter), > 2 batches of 8
+            sc.reset("ctr-default-%s-%s" % (kind, keying))
+            sc.ctr_init(kind, 0, cap=cap)
+            ctr_key_setup(sc, kind, 0, keying)
+            stream(sc, kind, 0, (17 if not thorough else 26) * bs + 3)
+            sc.ctr_cleanup(kind, 0)
+            # 2. counters: wrap-around, carry chains through every byte, short, null
+            sc.reset("ctr-counters-%s-%s" % (kind, keying))
+            sc.ctr_init(kind, 0, cap=cap)
+            ctr_key_setup(sc, kind, 0, keying)
+            ctrs = [(b"\xff" * bs, bs), (None, 0), (None, bs), (b"", 0)]
+            for nff in range(1, bs + 1):
+                if thorough or nff in (1, 2, 3, bs // 2, bs - 1, bs):
+                    c = sc.rb(bs - nff) + b"\xff" * (nff - 1) + bytes([0xFF - sc.rng.randrange(0, 9)])
+                    ctrs.append((c, bs))
+            for ln in range(1, bs):
+                if thorough or ln in (1, 2, bs - 1):
+                    ctrs.append((b"\xff" * ln if ln % 2 else sc.rb(ln), ln))
+            for c, ln in ctrs:
+                sc.ctr_set_counter(kind, 0, c, ln)
+                stream(sc, kind, 0, (9 * bs + 1) if not thorough else (17 * bs + 5))
+            sc.ctr_cleanup(kind, 0)
+        # 3. random mixed streams
+        for i in range(6 if thorough else 2):
+            sc.reset("ctr-rand-%s-%d" % (kind, i))
+            o = sc.rng.randrange(8)
+            sc.ctr_init(kind, o, cap=cap)
+            ctr_key_setup(sc, kind, o, sc.rng.choice(keyings))
+            for j in range(3):
+                sc.ctr_set_counter(kind, o, sc.rb(bs))
+                data = sc.rb(sc.rng.randrange(0, 20 * bs))
+                # applying the same stream twice restores the data: second pass in one call
+                sc.ctr_encrypt(kind, o, data)
+            sc.ctr_cleanup(kind, o)
+        if c06:
+            # 4. key / tweak / counter changes and invalid calls in the middle of a stream
+            for i in range(8 if thorough else 3):
+                sc.reset("ctr-mid-%s-%d" % (kind, i))
+                sc.ctr_init(kind, 0, cap=cap)
+                keying = sc.rng.choice(keyings)
+                ctr_key_setup(sc, kind, 0, keying)
+                sc.ctr_set_counter(kind, 0, sc.rb(bs))
+                for j in range(6 if thorough else 4):
+                    n = sc.rng.choice([1, bs - 1, bs, bs + 5, 3 * bs, 4 * bs + 1, 7 * bs, 8 * bs, 9 * bs + 2])
+                    sc.ctr_encrypt(kind, 0, sc.rb(n))
+                    r = sc.rng.random()
+                    if r < 0.35:
+                        ctr_key_setup(sc, kind, 0, keying)          # rekey mid-stream
+                    elif r < 0.55 and keying == "tweaked":
+                        sc.ctr_set_tweak(kind, 0, sc.rb(bs if kind != "mantis" else 8))
+                    elif r < 0.7:
+                        # invalid calls: must not disturb the stream
+                        sc.ctr_set_key(kind, 0, sc.rb(bs - 1), rounds=5)
+                        sc.ctr_set_counter(kind, 0, sc.rb(bs), bs + 1)
+                        sc.ctr_encrypt(kind, 0, None, n=4)
+                        sc.ctr_set_tweak(kind, 0, sc.rb(bs), bs + 3)
+                    elif r < 0.8:
+                        sc.ctr_set_counter(kind, 0, sc.rb(sc.rng.randrange(0, bs + 1)))
+                    sc.ctr_encrypt(kind, 0, sc.rb(sc.rng.randrange(0, 2 * bs)))
+                sc.ctr_cleanup(kind, 0)
+            # 5. live but never keyed object (implementation-defined, must still be back-end independent)
+            sc.reset("ctr-unkeyed-%s" % kind)
+            sc.ctr_init(kind, 0, cap=cap)
+            sc.ctr_set_counter(kind, 0, sc.rb(bs))
+            sc.ctr_encrypt(kind, 0, sc.rb(9 * bs + 3))
+            sc.ctr_cleanup(kind, 0)
+    return sc
+
+
+def run_mc(work, out, module, cfg, expect_fail=False, must_cover=(), **kw):
+    r = model_check(work, module, cfg, **kw)
+    rec, ok = mc_record(out, cfg, r, expect_fail=expect_fail, must_cover=must_cover)
+    return r, ok
+
+
+def mc_violation(pid, out, cfg, r):
+    d = os.path.join(VERIF, "replays", pid)
+    os.makedirs(d, exist_ok=True)
+    p = os.path.join(d, "mc-%s.txt" % cfg)
+    i = r.out.find("Error:")
+    with open(p, "w") as f:
+        f.write(r.out[i:] if i >= 0 else r.out)
+    out.violations.append(("design:%s:%s" % (cfg, r.violated), p,
+                           "design-level model %s violates %s" % (cfg, r.violated)))
+
+
+def backend_sweep(work, b, pid, seed, gen, out, kinds_caps=None):
+    """Reference run (widest back end) validated by TLC; runs under each lower
+    cap compared by identity, differing executions validated by TLC."""
+    ref_sc = gen(lambda kind: 2)
+    ref = conform(work, b, pid, seed, ref_sc.text(), out, tag="-cap2")
+    all_lines = list(ref)
+    for cap in (1, 0):
+        sc = gen(lambda kind, cap=cap: cap)
+        lines = run_drv(b, sc.text())
+        out.events += len(lines)
+        head, diff = compare_axis(work, ref, lines, "cap%d" % cap, pid, seed, out)
+        if diff:
+            # differing executions get a full validation: their rejection point is the diagnosis
+            txt_lines = head + [ln for ex in diff for ln in ex]
+            sub = Outcome()
+            sub_sc = sc.text()
+            _ = conform_lines(work, pid, seed, txt_lines, sub_sc, sub, tag="-cap%d" % cap)
+            out.merge(sub)
+        all_lines += lines
+    return all_lines
+
+
+def conform_lines(work, pid, seed, lines, sc_text, out, tag=""):
+    """Validate already-recorded trace lines (same bookkeeping as conform)."""
+    class _B:  # adapter so that conform() can be reused without re-running the driver
+        pass
+    import flow as _f
+    saved = _f.run_drv
+    try:
+        _f.run_drv = lambda b, t: lines
+        return _f.conform(work, None, pid, seed, sc_text, out, tag=tag)
+    finally:
+        _f.run_drv = saved
+
+
+def check_C05(work, tier, seed):
+    out = Outcome()
+    r, ok = run_mc(work, out, "MC_Ctr", "MC_Ctr", must_cover=("DoInit", "DoSetCounter", "DoSetKey", "DoEncrypt"))
+    if not ok:
+        mc_violation("C05", out, "MC_Ctr", r)
+    if tier == "thorough":
+        r, ok = run_mc(work, out, "MC_Ctr", "MC_Ctr8")
+        if not ok:
+            mc_violation("C05", out, "MC_Ctr8", r)
+        run_mc(work, out, "MC_Ctr", "MCneg_Ctr_nostagger", expect_fail=True)
+    b = build(work)
+    lines = backend_sweep(work, b, "C05", seed, lambda cf: gen_ctr(seed, tier, cf, c06=False), out)
+    note_distinct(out, lines, ("o", "n", "ctr", "cap"))
+    out.samples = sample_events([x for x in lines if '"ctr_' in x])
+    return out, dict(
+        level="model_checking",
+        rule="Design: MC_Ctr (TLC, exhaustive): all call sequences Init/SetCounter(c)/SetKey(k)/Encrypt(n) up to "
+             "MaxCalls over radix-4 2-digit counters (every carry, wrap-around), batch sizes {1,2,4} (and {1,8}) "
+             "in lock-step, requests 0..2B*bs+1: StreamLaw, BackendsAgree, PosRefines. Code: streams after init "
+             "(default counter) and after explicit counters (all-FF wrap, FF-suffix carry chains, short lengths, "
+             "NULL), irregular cuts incl. zero-length around block and 4/8-block batch boundaries, in/out of place, "
+             "Skinny-64/128 plain+tweaked and Mantis, on every back end; outputs validated by TLC against the real "
+             "cipher in TLA+, lower back ends by trace identity with the validated reference.",
+        assumptions=["design-level exhaustiveness is within the stated constants",
+                     "code-level: inputs sampled; reference trace validated by TLC, other back ends by identity or TLC"])
+
+
+def check_C06(work, tier, seed):
+    out = Outcome()
+    r, ok = run_mc(work, out, "MC_Ctr", "MC_Ctr", must_cover=("DoInit", "DoSetCounter", "DoSetKey", "DoEncrypt"))
+    if not ok:
+        mc_violation("C06", out, "MC_Ctr", r)
+    run_mc(work, out, "MC_Ctr", "MCneg_Ctr_dropbatch", expect_fail=True)
+    if tier == "thorough":
+        run_mc(work, out, "MC_Ctr", "MCneg_Ctr_nostagger", expect_fail=True)
+        r, ok = run_mc(work, out, "MC_Ctr", "MC_Ctr8")
+        if not ok:
+            mc_violation("C06", out, "MC_Ctr8", r)
+    b = build(work)
+    lines = backend_sweep(work, b, "C06", seed + 1000, lambda cf: gen_ctr(seed + 1000, tier, cf, c06=True), out)
+    note_distinct(out, lines, ("o", "n", "ctr", "cap"))
+    out.samples = sample_events([x for x in lines if '"ctr_' in x])
+    return out, dict(
+        level="model_checking",
+        rule="Design: product of implementation-shaped CTR models for batch sizes 1,2,4(,8) driven by the same call "
+             "sequences (TLC exhaustive, incl. key change mid-stream): all outputs equal; shipped variants must fail "
+             "(negative configs). Code: every CTR scenario (streams, mid-stream key/tweak/counter changes, invalid "
+             "calls mid-stream, unkeyed object) executed under each back-end cap; reference validated by TLC, others "
+             "must be identical up to the back-end name or are validated by TLC themselves.",
+        assumptions=["hook H2 caps the probe downward only; a back end the host CPU lacks cannot be exercised"])
+
+
+CHECKS.update({"C05": check_C05, "C06": check_C06})
